@@ -347,11 +347,11 @@ func (m *{{ .Name }}) Delete(k {{ .KeyType }}) {
 }
 
 func (m *{{ .Name }}) delete(k {{ .KeyType }}) {
-var kk {{ .KeyType }}
 	i := -1
 
-	for i, kk = range m.order {
+	for j, kk := range m.order {
 		if kk == k {
+			i = j
 			break
 		}
 	}
@@ -367,7 +367,8 @@ func (m *{{ .Name }}) Filter(fn filter{{ .CapitalizedName }}Func) {
 	m.mx.Lock()
 	defer m.mx.Unlock()
 
-	for _, k := range m.order {
+	// delete rewrites m.order in place, so iterate over a copy.
+	for _, k := range append([]{{ .KeyType }}(nil), m.order...) {
 		if !fn(k, m.data[k]) {
 			m.delete(k)
 		}
